@@ -52,6 +52,7 @@ type Network struct {
 	Latency func(from, to int) int64                      // nil: 0.2ms
 	Chunk   func(n int) int                               // nil: whole buffer
 	MaxBuf  int                                           // bytes in flight + undelivered per direction before Write blocks
+	OnClose func(c *Conn)                                 // called when an endpoint is closed or reset
 
 	Stats struct {
 		Dials, DialRefused, DialTimeout, Accepts uint64
@@ -477,6 +478,9 @@ func (c *Conn) CloseNow() error {
 		return ErrClosed
 	}
 	c.closed = true
+	if c.net.OnClose != nil {
+		c.net.OnClose(c)
+	}
 	c.rbuf = nil
 	if c.rdlEv != nil {
 		c.rdlEv.Cancel()
@@ -504,6 +508,9 @@ func (c *Conn) reset() {
 		return
 	}
 	c.broken = true
+	if c.net.OnClose != nil {
+		c.net.OnClose(c)
+	}
 	c.out = nil
 	c.outBytes = 0
 	if c.outEv != nil {
